@@ -4,7 +4,7 @@
    P1/P2 of DESIGN.md) is not proved; one rule of it is: the {n,m} parser accepts only bounds with
    n <= m <= usize::MAX, reports everything else as a classified error, and never panics.  The rest
    is carried by the exhaustive short-string correspondence against the three-valued grammar. *)
-From RX Require Import Base.Prelude Spec.Syntax Spec.Parse Model.Compiler Proofs.SmallFacts Proofs.BracketFacts Model.Op Model.Matcher Proofs.PlainPattern Proofs.PlainSpec.
+From RX Require Import Base.Prelude Spec.Syntax Spec.Parse Model.Compiler Proofs.SmallFacts Proofs.BracketFacts Model.Op Model.Matcher Proofs.PlainPattern Proofs.PlainSpec Proofs.GroupGrammar Proofs.GroupSpec.
 
 Theorem C07_flags :
   forall (xpath : bool) (s : list N),
@@ -44,6 +44,15 @@ Proof.
   intros unopt fl pat H1 H2 H3 H4. split; [apply spec_parse_ordinary; exact H3|apply compile_ordinary; assumption].
 Qed.
 
+(* the grammar half on the grammar of literals, alternation and groups (any nesting): every printed
+   grammar tree is valid for the specification's parser and is compiled by the model's *)
+Theorem C07_group_grammar_accepted_partial :
+  forall fl a,
+    ok_a (f_xpath fl) a = true -> f_literal fl = false -> f_ws fl = false ->
+    (exists r, spec_parse (f_xpath fl) (show_a a) = Valid r) /\ (exists prog, compile true fl (show_a a) = Ok prog).
+Proof. exact grammar_accepted. Qed.
+
 Print Assumptions C07_flags.
 Print Assumptions C07_quantifier_bounds_partial.
 Print Assumptions C07_ordinary_pattern_accepted_partial.
+Print Assumptions C07_group_grammar_accepted_partial.
